@@ -2760,7 +2760,7 @@ theorem file_renders (sk : List Bytes → List Bytes) (o : Options) [GlobalsAre 
     (r : List JsFunc × Scope) (h : toFile f = some r) :
     ∃ p name ae' rest s', f.body = .namespace p name ae' :: rest ∧
       visitSoyFile sk o f initState =
-        .ok ((), headerPieces f.name ++ (nsPieces 0 name (name.length + 1) 0 ++ r.1.flatMap (renderFunc (isEs6 o) 0)), s') := by
+        .ok ((), headerPieces (commentName f.name) ++ (nsPieces 0 name (name.length + 1) 0 ++ r.1.flatMap (renderFunc (isEs6 o) 0)), s') := by
   unfold toFile at h
   split at h
   · rename_i p name ae' rest hbody
@@ -2774,7 +2774,7 @@ theorem file_renders (sk : List Bytes → List Bytes) (o : Options) [GlobalsAre 
       exact (Runs.seq Runs.atOther (Runs.seq hm (nsLoop_pieces name (name.length + 1) 0))).cast (by simp)
     have ht := walkTop_renders sk o ho ae' rest [] _ r h 0
     have hall : Runs (At 0 [] .unspecified ⟨[[]], 0⟩) (AtF 0 ae' r.2) (visitSoyFile sk o f)
-        (headerPieces f.name ++ (nsPieces 0 name (name.length + 1) 0 ++ r.1.flatMap (renderFunc (isEs6 o) 0))) := by
+        (headerPieces (commentName f.name) ++ (nsPieces 0 name (name.length + 1) 0 ++ r.1.flatMap (renderFunc (isEs6 o) 0))) := by
       unfold visitSoyFile
       rw [hbody]
       unfold walkTop
@@ -3101,11 +3101,10 @@ variable [Globals]
 /-- FILES: the text the generator model (ES5 formatter, no message bundle) writes for a file of the fragment — the two
     comment lines, the declarations of the namespace's prefixes, the functions — is read by the grammar, as a program,
     as exactly the functions `toFile` translates the file to (Props/C04f: the ASTs whose semantics the registry theorems
-    of C04 are about), in canonical form.  The file's name must not break its comment line, the namespace is a dotted
-    name, the functions are in the image. -/
+    of C04 are about), in canonical form.  The namespace is a dotted name, the functions are in the image; the file's
+    name is ANY byte string (visitSoyFile replaces its line terminators — soyjs 086971f, `commentName_safe`). -/
 theorem gen_text_parses (sk : List Bytes → List Bytes) (o : Options) [GlobalsAre o] (ho : o.messages = none) (h5 : isEs6 o = false)
     (f : SoyFile) (r : List JsFunc × Scope) (h : toFile f = some r) (hi : ∀ g ∈ r.1, ImgF g)
-    (hc : SoyVerif.Lemmas.JsGenTop.CommentSafe f.name)
     (hn : ∀ p name ae rest, f.body = .namespace p name ae :: rest → QName name) :
     ∃ ps s', visitSoyFile sk o f initState = .ok ((), ps, s') ∧ jsParseFile (printPieces ps) = some (r.1.map canonF) := by
   obtain ⟨p, name, ae', rest, s', hbody, hw⟩ := file_renders sk o ho f r h
@@ -3115,10 +3114,10 @@ theorem gen_text_parses (sk : List Bytes → List Bytes) (o : Options) [GlobalsA
   have hj := qSplit_join name g segs he
   have hpieces := nsPieces_eq 0 name g segs hj hg (fun s h => JsIdent.noDot (hs s h))
   have hq := prefixes_qname he hg hr hs
-  have hl : jsLex (printPieces (headerPieces f.name ++
+  have hl : jsLex (printPieces (headerPieces (commentName f.name) ++
       (nsPieces 0 name (name.length + 1) 0 ++ r.1.flatMap (renderFunc false 0)))) =
       some (tkTops ((g :: prefixesFrom g segs).map (fun p => .stmt (nsDecl p)) ++ r.1.map plainF)) := by
-    have h1 := lex_header f.name hc
+    have h1 := lex_header (commentName f.name) (SoyVerif.Lemmas.JsGenTop.commentName_safe f.name)
       (printPieces (nsPieces 0 name (name.length + 1) 0 ++ r.1.flatMap (renderFunc false 0)))
     have h2 := lex_nsLines 0 (g :: prefixesFrom g segs) hq (printPieces (r.1.flatMap (renderFunc false 0)))
     have h3 := lexFs r.1 hi []
